@@ -247,6 +247,14 @@ Theorem C04_touch_disarmed_refuted :
 Proof. exact touch_disarmed_refuted. Qed.
 Print Assumptions C04_touch_disarmed_refuted.
 
+(* touchChange.undo's exemption of the ripemd constant (0x3030..3033, [ripemd_bytes]; compared with the
+   bytes of the running package in every model case): a reverted touch of that address is not undone *)
+Theorem C04_ripemd_exemption_refuted :
+  exists s body, good s /\ p002 s = true /\ Forall (item_ok true true) body /\
+                 fin_trie false true (after_revert body s) <> fin_trie false true s.
+Proof. exact ripemd_exemption_refuted. Qed.
+Print Assumptions C04_ripemd_exemption_refuted.
+
 (* Non-vacuity: create, set, snapshot, self-destruct + re-create + nested reverted snapshot, revert. *)
 Example C04_example :
   let s := fst (run [Do (OCreateAccount 1); Do (OSetData 1 2 [7]); Do (OAddBalance 1 30)] (fresh ∅ ∅ 9 true 0)) in
